@@ -4,6 +4,7 @@ import (
 	"bufio"
 	"fmt"
 	"go/ast"
+	"go/constant"
 	"go/token"
 	"go/types"
 	"os"
@@ -834,7 +835,6 @@ func sortedKeys(m map[string]bool) []string {
 	return out
 }
 
-
 // seqReach: the entry points (functions nothing else in the module refers to, block hooks, genesis, request processors)
 // from which a write of the relayer keeper's Sequence or Randao item is statically reachable — through any chain of
 // helper functions and through the module's keeper interfaces.  Rows: (entry point, "Sequence.Set" | "Randao.Set" ...).
@@ -925,7 +925,6 @@ func (w *world) seqReach(storeWriters [][3]string) [][2]string {
 	}
 	return out.sorted()
 }
-
 
 // ---------------------------------------------------------------------------
 // call graph of the module's own functions and lifting of facts to entry points
@@ -1036,6 +1035,82 @@ func (w *world) nondetReach(uses [][2]string) [][2]string {
 	for _, u := range uses {
 		for _, e := range g.entriesOf(u[0]) {
 			out[[2]string{e, u[1]}] = true
+		}
+	}
+	return out.sorted()
+}
+
+// ---------------------------------------------------------------------------
+// appWiring: how package app configures baseapp / the runtime: every reference (call or value) to a function or method
+// of cosmos-sdk/baseapp or cosmos-sdk/runtime whose name starts with "Set", and every reference to a package-level
+// function of cosmos-sdk/baseapp, by enclosing function.  A new handler, hook or execution option (optimistic execution,
+// a pre-blocker, another mempool, …) shows up here.
+
+func (w *world) appWiring() [][2]string {
+	out := set2{}
+	for _, p := range w.modPkgs {
+		if p.PkgPath != w.modPath+"/app" {
+			continue
+		}
+		for _, s := range w.sites([]*packages.Package{p}) {
+			ast.Inspect(s.root, func(n ast.Node) bool {
+				id, ok := n.(*ast.Ident)
+				if !ok {
+					return true
+				}
+				fn, ok := s.pkg.TypesInfo.Uses[id].(*types.Func)
+				if !ok || fn.Pkg() == nil {
+					return true
+				}
+				pp := fn.Pkg().Path()
+				isBase := strings.HasSuffix(pp, "/cosmos-sdk/baseapp")
+				isRuntime := strings.HasSuffix(pp, "/cosmos-sdk/runtime")
+				sig, _ := fn.Type().(*types.Signature)
+				method := sig != nil && sig.Recv() != nil
+				if (isBase || isRuntime) && strings.HasPrefix(fn.Name(), "Set") || (isBase && !method) {
+					out[[2]string{s.name, fn.Pkg().Name() + "." + fn.Name()}] = true
+				}
+				return true
+			})
+		}
+	}
+	return out.sorted()
+}
+
+// ---------------------------------------------------------------------------
+// moduleOrder: the hook orders of the runtime module configuration in package app (PreBlockers, BeginBlockers,
+// EndBlockers, InitGenesis): (list name, "<position>:<module name>"), module names resolved to their constant values.
+
+func (w *world) moduleOrder() [][2]string {
+	out := set2{}
+	want := map[string]bool{"PreBlockers": true, "BeginBlockers": true, "EndBlockers": true, "InitGenesis": true, "ExportGenesis": true}
+	for _, p := range w.modPkgs {
+		if p.PkgPath != w.modPath+"/app" {
+			continue
+		}
+		for _, s := range w.sites([]*packages.Package{p}) {
+			ast.Inspect(s.root, func(n ast.Node) bool {
+				kv, ok := n.(*ast.KeyValueExpr)
+				if !ok {
+					return true
+				}
+				key, ok := kv.Key.(*ast.Ident)
+				if !ok || !want[key.Name] {
+					return true
+				}
+				lit, ok := kv.Value.(*ast.CompositeLit)
+				if !ok {
+					return true
+				}
+				for i, e := range lit.Elts {
+					name := "?"
+					if tv, ok := s.pkg.TypesInfo.Types[e]; ok && tv.Value != nil && tv.Value.Kind() == constant.String {
+						name = constant.StringVal(tv.Value)
+					}
+					out[[2]string{key.Name, fmt.Sprintf("%d:%s", i, name)}] = true
+				}
+				return true
+			})
 		}
 	}
 	return out.sorted()
